@@ -408,6 +408,122 @@ import os, tempfile, shutil, subprocess, sys, json, types
 
 
 # ----------------------------------------------------------------------------
+# the worker: caller_reducer (retry with reduced complexity on a timeout)
+# ----------------------------------------------------------------------------
+@register
+class CallerReducer(Contract):
+    """the worker calls the per-transcript wrapper with exactly the dispatch it was given - on a retry after a timeout with a copy in which
+    only the cleavage parameters are replaced by a copy with reduced complexity limits; the dispatch and the cleavage parameters it was
+    given are never modified (they are shared between the transcripts of a run); it returns what the wrapper returns, lets every other
+    failure through and gives up with ValueError only when the variant limit cannot be reduced further"""
+    path, qualname, props = CVP, 'caller_reducer', ('C06', 'C07')
+    declared_raises = ['ValueError', '<any>']
+    assumptions = ('havoc: call_variant_peptides_wrapper returns, times out or fails (its own contract is Wrapper, contracts/c07.py); copy.copy makes a '
+                   'shallow copy; the retry schedule (which reduced limits are tried) is followed but its termination is not proved',)
+
+    def setup(self, I):
+        e = I.e
+        st = types.SimpleNamespace(calls=[], outcome=None)
+        st.params = SymObj('CleavageParams', max_variants_per_node=e.int('mvpn0'), additional_variants_per_misc=e.int('avpm0'), _original=True)
+        n1, n2 = e.int('n_mvpn'), e.int('n_avpm')
+        e.assume(z3.And(n1 >= 1, n2 >= 1))
+        a1, a2 = e.array('mvpn'), e.array('avpm')
+        zz = lambda i: i if is_z3(i) else z3.IntVal(i)
+        st.dispatch = dict(tx_id=SymObj('TxId'), variant_series=SymObj('Series'), cleavage_params=st.params, pool=SymObj('Pool'),
+                           max_variants_per_node=FnView(n1, lambda i: a1[zz(i)], tag='mvpn'), additional_variants_per_misc=FnView(n2, lambda i: a2[zz(i)], tag='avpm'),
+                           skip_failed=e.bool('skip_failed'))
+        st.snapshot = dict(st.dispatch)
+        st.args = [st.dispatch]
+        self._cur = st
+        return st
+
+    @property
+    def models(self):
+        c = self
+
+        def inst(reg):
+            def wrapper(I, a, k):
+                st = c._cur
+                st.calls.append(dict(k))
+                same = not a and set(k) == set(st.snapshot) and all(k[x] is st.snapshot[x] for x in st.snapshot if x != 'cleavage_params')
+                I.e.prove('C06/worker/wrapper-gets-the-dispatch-it-was-given-apart-from-the-cleavage-parameters', same)
+                cp = k.get('cleavage_params')
+                I.e.prove('C06/worker/cleavage-parameters-are-the-given-ones-or-a-copy-of-them',
+                          isinstance(cp, SymObj) and cp.cls == 'CleavageParams' and (cp is st.params or cp.fields.get('_copy_of') is not None))
+                ch = I.e.choose(3, 'wrapper outcome')
+                st.outcome = ch
+                if ch == 1:
+                    raise PyRaise(SymExc('TimeoutError', ['timed out']))
+                if ch == 2:
+                    raise PyRaise(SymExc('<any>', ['failure']))
+                st.result = SymObj('WrapperResult')
+                return st.result
+            reg.func_(CVP, 'call_variant_peptides_wrapper', wrapper)
+
+            def copy_(I, a, k):
+                v = a[0]
+                if isinstance(v, dict):
+                    return dict(v)
+                if isinstance(v, SymObj) and v.cls == 'CleavageParams':
+                    f = dict(v.fields)
+                    f.pop('_original', None)
+                    f['_copy_of'] = v.fields.get('_copy_of', v)
+                    return SymObj('CleavageParams', **f)
+                raise Unsupported(f'copy.copy({v!r})')
+            reg.ext_('copy.copy', copy_)
+
+            def guard(name):
+                def h(I, o, v):
+                    I.e.prove('C06/worker/given-cleavage-parameters-are-never-modified', '_copy_of' in o.fields)
+                    o.fields[name] = v
+                return h
+            for nm in ('max_variants_per_node', 'additional_variants_per_misc'):
+                reg._setattr[('CleavageParams', nm)] = guard(nm)
+        return (inst,)
+
+    def havoc(self, I, env, k):
+        st = self._cur
+        e = I.e
+        # an arbitrary retry: the dispatch is the given one (first attempt) or a copy whose cleavage parameters are a copy
+        if e.branch(k == 0, 'first attempt'):
+            env['dispatch'] = st.dispatch
+        else:
+            cp = SymObj('CleavageParams', max_variants_per_node=e.int('mvpn_cur'), additional_variants_per_misc=e.int('avpm_cur'), _copy_of=st.params)
+            d = dict(st.snapshot)
+            d['cleavage_params'] = cp
+            env['dispatch'] = d
+        for nm in ('max_variants_per_node', 'additional_variants_per_misc'):
+            n = e.int(f'n_{nm}_left')
+            e.assume(n >= 1)
+            arr = e.array(f'{nm}_left')
+            env[nm] = FnView(n, lambda i, arr=arr: arr[i if is_z3(i) else z3.IntVal(i)], tag=nm)
+
+    def inv(self, I, env, k):
+        st = self._cur
+        d = env['dispatch']
+        ok = isinstance(d, dict) and set(d) == set(st.snapshot) and all(d[x] is st.snapshot[x] for x in st.snapshot if x != 'cleavage_params')
+        cp = d.get('cleavage_params') if isinstance(d, dict) else None
+        okcp = isinstance(cp, SymObj) and (cp is st.params or cp.fields.get('_copy_of') is not None)
+        given = all(st.dispatch[x] is st.snapshot[x] for x in st.snapshot) and st.params.fields.get('_original') is True
+        return [('next-attempt-uses-the-given-dispatch-with-at-most-the-cleavage-parameters-replaced-by-a-copy', ok and okcp),
+                ('given-dispatch-untouched', given)]
+
+    @property
+    def loops(self):
+        return {0: LoopSpec(inv=self.inv, havoc=self.havoc, keep=('tx_id',))}
+
+    def post_return(self, I, st, ret):
+        I.e.prove('C06/worker/returns-what-the-wrapper-returned', st.outcome == 0 and ret is st.result)
+        I.e.prove('C06/worker/given-dispatch-untouched-at-return', all(st.dispatch[x] is st.snapshot[x] for x in st.snapshot))
+
+    def post_raise(self, I, st, exc):
+        if exc.cls == 'ValueError':
+            I.e.prove('C06/worker/gives-up-only-after-a-timeout', st.outcome == 1)
+        else:
+            I.e.prove('C06/worker/other-failures-of-the-wrapper-pass-through', exc.cls == '<any>' and st.outcome == 2)
+
+
+# ----------------------------------------------------------------------------
 # what one dispatch carries: gather_data_for_call_variant
 # ----------------------------------------------------------------------------
 TXID = z3.Function('transcript_id_at', I_, I_)          # position in tx_ids -> transcript
